@@ -151,12 +151,10 @@ def main():
             pass
         thickness = rng.choice([1.0, 0.5, 2.5]) if dim == 2 else 1.0
         kind = next(kinds_cycle)
-        if kind == "hyperelastic" and dim == 2 and thickness != 1.0:
-            kind = "elastic"
         try:
             simu, ncomp = build_sim(kind, mesh, thickness)
         except Exception as ex:  # noqa: BLE001
-            res.notes.append(f"{kind} on {et}: not built ({type(ex).__name__}: {str(ex)[:80]}); elastic used")
+            res.fail(f"simulation cannot be built sim={kind}", f"{kind} on {et}: {type(ex).__name__}: {str(ex)[:120]}", dict(sim=kind, elemType=et))
             kind = "elastic"
             simu, ncomp = build_sim(kind, mesh, thickness)
         unknowns = UNK[ncomp] if ncomp > 1 else ["t"]
@@ -195,9 +193,16 @@ def main():
                     vals = values
                     if form == "nodal" and strays:
                         vals = [np.concatenate([v, 7.0 * np.ones(len(strays))]) for v in values]
+                    dup = 0
+                    if form == "constant" or rng.random() < 0.3:
+                        # a selection built by concatenating two selections lists their common nodes twice
+                        dup = min(2, len(nodes))
+                        sel = np.concatenate([sel, nodes[:dup]])
+                        if form == "nodal":
+                            vals = [np.concatenate([v, v[:dup]]) for v in vals]
                     simu.Bc_Init()
                     ident = dict(elemType=et, sim=kind, load=fname, region=rname, form=form, density=[repr(p) for p in polys],
-                                 A=A.tolist(), t=t.tolist(), thickness=thickness, strays=[int(s) for s in strays], node_order="shuffled" if np.any(np.diff(nodes) < 0) else "ascending")
+                                 A=A.tolist(), t=t.tolist(), thickness=thickness, strays=[int(s) for s in strays], node_order="shuffled" if np.any(np.diff(nodes) < 0) else "ascending", duplicated_nodes=int(dup))
                     try:
                         call_load(simu, kind, fname, sel, vals, unknowns)
                         F = np.asarray(nvec_of(simu, kind)).reshape(mesh.Nn, ncomp)
@@ -307,7 +312,7 @@ def main():
                 try:
                     s = Simulations.Beam(mesh, Models.Beam.BeamStructure(beams), useTimoshenko=timo)
                 except Exception as ex:  # noqa: BLE001
-                    res.notes.append(f"beam {et} timo={timo} dim={bdim}: not built ({type(ex).__name__})")
+                    res.fail(f"beam simulation raises timo={timo} dim={bdim}", f"Simulations.Beam raised {type(ex).__name__}: {str(ex)[:120]}", dict(elemType=et, timoshenko=timo, dim=bdim))
                     continue
                 X = mesh.coord
                 dofn = 3 if bdim == 2 else 6
